@@ -11,7 +11,7 @@ static Profile profile_for(const std::string& mode) {
   else if (mode == "C04") { p.p_zero = 55; p.w_realloc = 16; p.w_zchain = 14; p.w_tfree = 4; p.w_heap = 5; p.w_churn = 4; }
   else if (mode == "C05") { p.w_realloc = 30; p.w_expand = 5; p.w_alloc = 25; p.w_edge = 3; }
   else if (mode == "C06") { p.w_edge = 25; p.big_ok = false; }
-  else if (mode == "C10") { p.w_heap = 16; p.p_heap_api = 60; p.w_tfree = 3; p.arenas = true; p.big_ok = false; }
+  else if (mode == "C10") { p.w_heap = 16; p.p_heap_api = 60; p.w_tfree = 3; p.w_talloc = 3; p.arenas = true; p.big_ok = false; }
   else if (mode == "C12") { p.w_visit = 12; p.w_fill = 12; p.w_holes = 10; p.stop_visits = true; p.w_tfree = 4; p.w_talloc = 2; p.big_ok = false; }
   else if (mode == "C09") { p.w_talloc = 12; p.w_tfree = 6; p.w_collect = 6; p.w_visit = 6; p.w_heap = 2; p.big_ok = false; p.w_fill = 8; p.w_churn = 4; }
   else if (mode == "C13") { p.w_tick = 9; p.w_collect = 6; p.w_visit = 4; p.p_aligned = 25; p.p_zero = 30; p.w_realloc = 12; p.w_zchain = 4; p.stop_visits = true; }
@@ -63,7 +63,16 @@ struct HistHarness : eng::Harness {
       else if (ch.chance(1, 2)) g.forced = true;   // (mi_collect_reduce ops)
       if (g.forced) g.out.push_back(Op("cfg").u("forced", 1));   // forced abandonment (option or mi_collect_reduce) may occur: attribution-dependent clauses are off from the start
       g.pf.min_ops += 7; g.pf.max_ops += 7; }
+    // helper threads leave blocks behind in several modes: with reclaim-on-free the first free by the main thread adopts the whole segment
+    if ((mode == "C01" || mode == "C10" || mode == "C12" || mode == "C03") && ch.chance(1, 4)) { g.out.push_back(Op("opt").s("name", "abandoned_reclaim_on_free").u("v", 1)); g.pf.min_ops++; g.pf.max_ops++; }
     if ((mode == "C12" && ch.chance(1, 2)) || mode == "C13") { g.out.push_back(Op("opt").s("name", "visit_abandoned").u("v", 1)); g.census_ok = true; g.pf.min_ops++; g.pf.max_ops++; }
+    if (mode == "C13" && ch.chance(1, 25)) {
+      // an arena with more than 64 blocks (more than one bitmap field): 66-72 huge blocks take one arena block each, the highest ones are freed, the
+      // delay passes, and ordinary activity makes the arena purge them -- while the blocks with the same bit position in the first field are live
+      g.out.push_back(Op("opt").s("name", "arena_reserve").u("v", (uint64_t)4 * 1024 * 1024)); int k = (int)ch.range(66, 72);
+      if (g.next_slot + k < NSLOTS) { int s0 = g.next_slot; g.next_slot += k; g.out.push_back(Op("fill").u("s", (uint64_t)s0).u("k", (uint64_t)k).s("f", "malloc").u("n", (size_t)ch.range(17*MiB, 20*MiB)).u("nt", 1)); for (int i = 0; i < k; i++) g.note_alloc(s0 + i, 17*MiB, 1, 0, false, g.def); g.groups.push_back({ s0, k, 17*MiB });
+        int hi = (int)ch.range(2, 4); g.out.push_back(Op("rfree").u("s", (uint64_t)(s0 + k - 1 - hi)).u("k", (uint64_t)hi).u("step", 1).u("ph", 0)); for (int i = 0; i < hi; i++) g.note_free(s0 + k - 1 - hi + i);
+        g.out.push_back(Op("tick").u("ms", 3000)); g.out.push_back(Op("free").u("s", (uint64_t)(s0 + k - 1))); g.note_free(s0 + k - 1); g.out.push_back(Op("collect").u("force", 0)); g.out.push_back(Op("verify")); g.pf.min_ops += 7; g.pf.max_ops += 7; } }
     Case c = g.history();
     if (c09_quiesce) c.push_back(Op("quiesce"));
     return c;
